@@ -27,10 +27,17 @@ import (
 	"strings"
 )
 
-const (
-	repoDir     = "/repo"
-	simsyncPath = "github.com/openbao/openbao/sdk/v2/helper/simsync"
-)
+const simsyncPath = "github.com/openbao/openbao/sdk/v2/helper/simsync"
+
+// repoDir is the tree the checks build: /repo, unless VERIF_REPO points at a
+// snapshot (used for background exploration runs only; registered checks and
+// committed evidence always come from /repo itself).
+var repoDir = func() string {
+	if d := os.Getenv("VERIF_REPO"); d != "" {
+		return d
+	}
+	return "/repo"
+}()
 
 var verifDir = func() string {
 	if d := os.Getenv("VERIF_DIR"); d != "" {
